@@ -317,5 +317,6 @@ func main() {
 	writeIfChanged(filepath.Join(out, "Preds.v"), p.emitPreds())
 	writeIfChanged(filepath.Join(out, "PoolGen.v"), p.emitStateful())
 	writeIfChanged(filepath.Join(out, "MuxGen.v"), p.emitMuxGen())
+	writeIfChanged(filepath.Join(out, "ParseGen.v"), p.emitParseGen())
 	writeIfChanged(filepath.Join(out, "Alias.v"), p.emitAlias()+p.emitGlobals())
 }
